@@ -64,4 +64,10 @@ PROPS = {
             R("h23", "c12", "TestC12_Index", (2000, 4), (60000, 16, 3000)),
         ],
     },
+    "C17": {
+        "level": "exploration",
+        "units": [
+            R("h23", "c17", "TestC17_Expand", (30000, 4), (2000000, 16, 3000)),
+        ],
+    },
 }
